@@ -511,6 +511,9 @@ pub fn run(session: &Session, prop: &'static Soundness) -> i32 {
     for text in crate::genr::nearmiss::control_placement_programs() {
         cases.push(json!({"kind": "near-miss", "text": text}));
     }
+    for text in crate::genr::nearmiss::conditional_declaration_programs() {
+        cases.push(json!({"kind": "near-miss", "text": text}));
+    }
     for text in crate::genr::nearmiss::redeclaration_programs() {
         cases.push(json!({"kind": "near-miss", "text": text}));
     }
